@@ -1269,6 +1269,52 @@ func genRows(r *rand.Rand, c *Case) {
 	c.Class = append(c.Class, class)
 }
 
+// class "dup-labels-apart" (round 7, seed C17-g): one label set stored under TWO fingerprints that are NOT neighbours in the
+// ORDER BY fingerprint row stream - at least one other selected series, with its own label set and its own samples, lies
+// between them (and often another one behind the second).  ReshuffleSeries appends the second fingerprint's samples to the
+// first one's slice and sorts it in place: whatever shares memory behind that slice is overwritten.  Every sample is
+// recognisable (timestamp offset = position of its series), every fingerprint has its labels row, the two rows of the shared
+// label set come in different key orders.
+func genRowsDupApart(r *rand.Rand, c *Case) {
+	n := 3 + r.Intn(3)
+	fps := map[uint64]bool{}
+	for len(fps) < n {
+		fp := r.Uint64()
+		if r.Intn(2) == 0 {
+			fp = uint64(1 + r.Intn(40))
+		}
+		fps[fp] = true
+	}
+	var order []uint64
+	for fp := range fps {
+		order = append(order, fp)
+	}
+	sort.Slice(order, func(i, j int) bool { return order[i] < order[j] })
+	var ls [][][2]string
+	seen := map[string]bool{}
+	for len(ls) < n {
+		l := genLabels(r)
+		if !seen[labelsKey(l)] {
+			seen[labelsKey(l)] = true
+			ls = append(ls, l)
+		}
+	}
+	a := r.Intn(n - 2)
+	b := a + 2 + r.Intn(n-a-2)
+	ls[b] = append([][2]string(nil), ls[a]...)
+	r.Shuffle(len(ls[b]), func(i, j int) { ls[b][i], ls[b][j] = ls[b][j], ls[b][i] })
+	for i, fp := range order {
+		k := 1 + r.Intn(4)
+		ts := c.Hints.Start + int64(i)*7
+		for j := 0; j < k; j++ {
+			ts += int64(1+r.Intn(20)) * 1000
+			c.Rows = append(c.Rows, Row{Fp: fp, Val: int64(r.Intn(6)), Ts: ts})
+		}
+		c.Fetch = append(c.Fetch, LabelsRow{Fp: fp, Labels: ls[i]})
+	}
+	c.Class = append(c.Class, "dup-labels", "dup-labels-apart")
+}
+
 func runQuerier(c *Case) {
 	c.SQL, c.SQLLabels, c.Err, c.ErrText, c.Obs = "", "", "", "", nil
 	pms, err := promMatchers(c.Ms)
@@ -1622,6 +1668,10 @@ func main() {
 				downDB = true
 			}
 			genRows(r, &c)
+			if rs := hx.Rand(f.Seed*86028121 + int64(i)); rs.Intn(8) == 0 { // own stream (round 7, seed C17-g)
+				c.Class, c.Rows, c.Fetch = c.Class[:len(c.Class)-1], nil, nil
+				genRowsDupApart(rs, &c)
+			}
 			c.DB = genDB(r, h)
 			if downDB && len(c.DB.Series) > 0 {
 				rs := hx.Rand(f.Seed*32452843 + int64(i))
